@@ -29,6 +29,7 @@ Step_(A) == l <= Len(Trace) /\ A /\ l' = l + 1 /\ UNCHANGED <<queue, mode, uncut
 
 GroupsG2 == [t \in Tables |-> "g"]
 GroupsMixed == [t \in Tables |-> IF t = "a" THEN "" ELSE "g"]
+GroupsNone == [t \in Tables |-> ""]
 GroupsG3 == [t \in Tables |-> IF t = "a" THEN "" ELSE IF t = "b" THEN "g" ELSE "h"]
 
 NoPend == [t \in Tables |-> [p1 |-> <<>>, p2 |-> <<>>, st |-> "new"]]
